@@ -54,6 +54,9 @@ func genPool(t *rapid.T) []*core.StructSpec {
 		{Fields: []*core.FieldSpec{{Name: "R_64", ID: 64, Req: core.Required, Type: i32}, {Name: "R_2", ID: 2, Req: core.Required, Type: str}, {Name: "R_3", ID: 3, Type: &core.TypeSpec{Kind: core.KList, Elem: bt(false)}}}},
 		{Fields: []*core.FieldSpec{{Name: "Q_64", ID: 64, Req: core.Required, Type: str}, {Name: "Q_2", ID: 2, Req: core.Optional, GoPtr: true, Type: i32}, {Name: "Q_7", ID: 7, Type: &core.TypeSpec{Kind: core.KMap, Key: i32, Elem: bt(true)}}}, Holder: true},
 	}
+	// low required id, non-required field in a higher presence-set word that R/Q require
+	pool = append(pool, &core.StructSpec{Fields: []*core.FieldSpec{{Name: "P_1", ID: 1, Req: core.Required, Type: i32},
+		{Name: "P_64", ID: 64, Req: core.Optional, Type: str}, {Name: "P_255", ID: 255, Type: i32}}})
 	for i := rapid.IntRange(0, 3).Draw(t, "nextra"); i > 0; i-- {
 		pool = append(pool, core.GenStruct(t, cfg))
 	}
